@@ -12,8 +12,10 @@ package c33
 // reset before every execution so that the static-table maps are rebuilt each
 // time.
 //
-// internal/http3 exports nothing of its QPACK layer, so expected results are
-// not computed with the uninstrumented package but written down here:
+// internal/http3 exports nothing of its QPACK layer, so the sequential result
+// of a call is not computed with the uninstrumented package but with the same
+// instrumented source in a single-thread execution (c33Sequential). In
+// addition the RFC's answer is written down here and compared (recorded only):
 // c33Ref encodes a field list from an explicit per-line instruction (indexed
 // line N / name reference N / literal name — taken from RFC 9204 Appendix A by
 // hand) with its own prefixed-integer coder and hpack's Huffman coder, and the
@@ -420,20 +422,69 @@ func c33Decode(payload []byte) (string, bool) {
 	return c33RenderDecode(lines, fmt.Sprint(derr), eerr, rest), true
 }
 
-func c33DecodeOp(name string, payload []byte, want string) vsched.Op {
-	return vsched.Op{Kind: "qpackDecoder.decode", Name: name, Want: want,
-		Run: func() string {
-			got, ok := c33Decode(payload)
+// c33Call is one call of the alphabet: run reports ok=false when the harness
+// (not the code under test) failed; expect is the result RFC 9204 prescribes,
+// written down by hand.
+type c33Call struct {
+	kind, name, expect string
+	run                func() (string, bool)
+}
+
+func c33DecodeOp(name string, payload []byte, expect string) c33Call {
+	return c33Call{"qpackDecoder.decode", name, expect, func() (string, bool) { return c33Decode(payload) }}
+}
+
+// c33Sequential turns the calls into vsched ops. The oracle of this part is
+// "each call returns what it returns alone", so Want is the result of the call
+// made alone on the same instrumented source from the reset package state (one
+// controlled single-thread execution), not the hand-written expectation: a
+// change of the sequential behaviour is the business of the sequential part
+// of C33 and must not make this part fail or break. Calls whose sequential
+// result differs from the expectation are listed in the evidence; calls that
+// cannot complete alone are left out.
+func c33Sequential(c *vx.Ctx, calls []c33Call) []vsched.Op {
+	var ops []vsched.Op
+	differ, dropped := []string{}, []string{}
+	for _, k := range calls {
+		k := k
+		want := k.expect
+		op := vsched.Op{Kind: k.kind, Name: k.name, Run: func() string {
+			got, ok := k.run()
 			if !ok {
 				return want // harness failure: recorded, reported as a broken harness, never as a violation
 			}
 			return got
 		}}
+		if !vsched.Free { // the free-running pass evaluates no results
+			var got string
+			var ok bool
+			_, out, err := vsched.Replay(vsched.Program{Name: "alone/" + k.name, MaxSteps: 20000, Body: func() func(vsched.Outcome) vsched.Verdict {
+				zzResetGlobals()
+				vsched.GoNamed("T1", func() { got, ok = k.run() })
+				return func(vsched.Outcome) vsched.Verdict { return vsched.Verdict{} }
+			}}, nil)
+			if err != "" || out.Panic != "" || out.Deadlock || out.Horizon {
+				dropped = append(dropped, k.name)
+				continue
+			}
+			if ok {
+				want = got
+				if got != k.expect {
+					differ = append(differ, k.name+" returns "+got)
+				}
+			}
+		}
+		op.Want = want
+		ops = append(ops, op)
+	}
+	c.Note("globals_calls_whose_sequential_result_differs_from_the_rfc_expectation", differ)
+	c.Note("globals_calls_left_out_because_they_fail_alone", dropped)
+	return ops
 }
 
-func c33Ops(thorough bool) []vsched.Op {
+func c33Ops(thorough bool) []c33Call {
 	long := strings.Repeat("a", 300) // Huffman length 188 > 126: multi-byte length
-	secA := []c33F{ // every line is a full static-table hit
+	secA := []c33F{                  // every line is a full static-table hit
 		{name: ":method", value: "GET", how: 'i', idx: 17},
 		{name: ":scheme", value: "https", how: 'i', idx: 23},
 		{name: ":path", value: "/", how: 'i', idx: 1},
@@ -468,25 +519,22 @@ func c33Ops(thorough bool) []vsched.Op {
 		fs []c33F
 	}{{"A:static-hits", secA}, {"B:name-refs", secB}, {"C:literal-names", secC}}
 
-	var ops []vsched.Op
+	var ops []c33Call
 	for _, s := range secs {
 		s := s
-		ops = append(ops, vsched.Op{Kind: "qpackEncoder.encode", Name: "encode(" + s.n + ")", Want: fmt.Sprintf("%x", c33Ref(s.fs)),
-			Run: func() string { return fmt.Sprintf("%x", c33Encode(s.fs)) }})
+		ops = append(ops, c33Call{"qpackEncoder.encode", "encode(" + s.n + ")", fmt.Sprintf("%x", c33Ref(s.fs)),
+			func() (string, bool) { return fmt.Sprintf("%x", c33Encode(s.fs)), true }})
 	}
 	for _, s := range secs {
 		ops = append(ops, c33DecodeOp("decode(ref("+s.n+"))", c33Ref(s.fs), c33RenderDecode(c33Lines(s.fs), "<nil>", "<nil>", c33Sentinel)))
 	}
 	// encode with the instrumented encoder, decode what it produced
 	wantD := fmt.Sprintf("%x | ", c33Ref(secD)) + c33RenderDecode(c33Lines(secD), "<nil>", "<nil>", c33Sentinel)
-	ops = append(ops, vsched.Op{Kind: "qpack-roundtrip", Name: "decode(encode(D:mixed))", Want: wantD,
-		Run: func() string {
+	ops = append(ops, c33Call{"qpack-roundtrip", "decode(encode(D:mixed))", wantD,
+		func() (string, bool) {
 			b := c33Encode(secD)
 			got, ok := c33Decode(b)
-			if !ok {
-				return wantD
-			}
-			return fmt.Sprintf("%x | ", b) + got
+			return fmt.Sprintf("%x | ", b) + got, ok
 		}})
 	// RFC 9204 B.1, then an indexed line with static index 99 (out of range):
 	// the first line is delivered, the section is rejected, the decoder stopped
@@ -572,18 +620,18 @@ func c33GuardProgs(progs []vsched.Program, seq int) []vsched.Program {
 func TestVerif_C33_globals(t *testing.T) {
 	vx.Run(t, "C33", func(c *vx.Ctx) {
 		bounds := vx.Pick(c, []int{1}, []int{2})
-		c.Rule("concurrent part: for every unordered pair of calls from a small alphabet (qpackEncoder.init+encode of three field sections — all lines full static-table hits / name-only hits incl. never-indexed, Huffman, raw and 300-byte values / literal names incl. lower-casing, a skipped non-ASCII name, raw one-byte name, empty value —, qpackDecoder.decode of the reference encodings of the same three sections, one encode-then-decode of a mixed section, one section with an out-of-range static index after a valid line; thorough: also a pseudo-header after a regular field, EOS inside a Huffman string, Required Insert Count 1) two threads run one call each (thorough: twice each), each on its own encoder / decoder / *stream over its own fresh in-memory QUIC stream, on the instrumented internal/http3 QPACK+stream source starting from the package's initial state (static-table maps not built yet); every schedule with at most B preemptions (quick B=1, thorough B=2) at the scheduling points — before each statement mentioning a written package-level variable " + fmt.Sprint(zzWrittenGlobals) + ", sync.Once.Do — is executed and each call must return what it returns alone: the encoder the bytes of a hand-instructed RFC 9204 reference coder, the decoder the field lines, never-index flags, verdict, endFrame result and exact number of consumed stream bytes")
-		c.Assume("concurrent part: statement granularity at mentions of written package-level variables; accesses to heap objects only reachable from them and mutation through method calls are not scheduling points; only errors.go http3.go qpack*.go stream.go of internal/http3 are compiled (the decoder has no scheduling point on the unchanged tree: staticTableEntries is never written); golang.org/x/net/quic, hpack and httpcommon are not instrumented and the in-memory QUIC connection pair that supplies the streams is shared by the two threads (each stream is created and loaded atomically before its decoder starts); expected results are written down in the harness (internal/http3 exports no QPACK entry point), Huffman coding taken from hpack")
+		c.Rule("concurrent part: for every unordered pair of calls from a small alphabet (qpackEncoder.init+encode of three field sections — all lines full static-table hits / name-only hits incl. never-indexed, Huffman, raw and 300-byte values / literal names incl. lower-casing, a skipped non-ASCII name, raw one-byte name, empty value —, qpackDecoder.decode of the reference encodings of the same three sections, one encode-then-decode of a mixed section, one section with an out-of-range static index after a valid line; thorough: also a pseudo-header after a regular field, EOS inside a Huffman string, Required Insert Count 1) two threads run one call each (thorough: twice each), each on its own encoder / decoder / *stream over its own fresh in-memory QUIC stream, on the instrumented internal/http3 QPACK+stream source starting from the package's initial state (static-table maps not built yet); every schedule with at most B preemptions (quick B=1, thorough B=2) at the scheduling points — before each statement mentioning a written package-level variable " + fmt.Sprint(zzWrittenGlobals) + ", sync.Once.Do — is executed and each call must return what the same call returns alone on the same source (one single-thread execution from the reset state): the encoder its bytes, the decoder the field lines, never-index flags, verdict, endFrame result and exact number of consumed stream bytes; the sequential results are also compared with a hand-instructed RFC 9204 reference coder, a difference there is only recorded (it belongs to the sequential part)")
+		c.Assume("concurrent part: statement granularity at mentions of written package-level variables; accesses to heap objects only reachable from them and mutation through method calls are not scheduling points; only errors.go http3.go qpack*.go stream.go of internal/http3 are compiled (the decoder has no scheduling point on the unchanged tree: staticTableEntries is never written); golang.org/x/net/quic, hpack and httpcommon are not instrumented and the in-memory QUIC connection pair that supplies the streams is shared by the two threads (each stream is created and loaded atomically before its decoder starts); internal/http3 exports no QPACK entry point, so the sequential result of a call is computed on the instrumented source itself")
 		seq := 0
 		if !c.Quick() {
 			seq = 1
 		}
-		progs := c33GuardProgs(vsched.PairPrograms("C33", zzResetGlobals, c33GuardOps(c33Ops(!c.Quick())), seq), seq)
 		// open the connection pair now: no handshake inside an execution
 		if q := c33Streams.loaded([]byte{0}); q != nil {
 			io.ReadAll(q)
 			q.CloseRead()
 		}
+		progs := c33GuardProgs(vsched.PairPrograms("C33", zzResetGlobals, c33GuardOps(c33Sequential(c, c33Ops(!c.Quick()))), seq), seq)
 		c.Note("globals_programs", len(progs))
 		c.Note("written_package_level_variables", zzWrittenGlobals)
 		vsched.RunBounds(c, "globals", progs, bounds)
